@@ -33,6 +33,11 @@ Theorem C06_success_means_valid : forall inp d, input_wf inp -> build inp = Ok d
 Proof. exact (build_valid gen_bfacts C06_generated_guards_ok). Qed.
 Print Assumptions C06_success_means_valid.
 
+(* a compiled dictionary always has the row and column of the BOS/EOS id 0 (the well-formedness C20 assumes of a grammar) *)
+Theorem C06_compiled_matrix_nonempty : forall inp d, input_wf inp -> build inp = Ok d -> 1 <= d_nl d /\ 1 <= d_nr d.
+Proof. exact (compiled_matrix_nonempty gen_bfacts C06_generated_guards_ok). Qed.
+Print Assumptions C06_compiled_matrix_nonempty.
+
 (* consequently the connection lookup analysis performs for any two indexed entries indexes inside the matrix *)
 Theorem C06_validated_ids_index_safe : forall inp d a b, input_wf inp -> build inp = Ok d ->
   In a (d_entries d) -> In b (d_entries d) -> 0 <= e_left a -> 0 <= e_left b ->
